@@ -416,6 +416,19 @@ func checkNumericEscape(w *World, r *Report, rule, construct string, cc *ast.Cas
 	maxCP := false
 	unicodeGuard := false
 	sizeVals := map[int64]bool{}
+	nAppend, rawByteAppend, encodes := 0, false, false
+	// then-branches of `x < 0x80` / `x <= 0x7f`: a single-byte append is the UTF-8 encoding there
+	var asciiGuarded [][2]token.Pos
+	ast.Inspect(cc, func(n ast.Node) bool {
+		if is, ok := n.(*ast.IfStmt); ok {
+			if be, ok := is.Cond.(*ast.BinaryExpr); ok {
+				if v, ok := constI(info, be.Y); ok && ((be.Op == token.LSS && v == 0x80) || (be.Op == token.LEQ && v == 0x7f)) {
+					asciiGuarded = append(asciiGuarded, [2]token.Pos{is.Body.Pos(), is.Body.End()})
+				}
+			}
+		}
+		return true
+	})
 	ast.Inspect(cc, func(n ast.Node) bool {
 		switch n := n.(type) {
 		case *ast.ForStmt:
@@ -427,6 +440,29 @@ func checkNumericEscape(w *World, r *Report, rule, construct string, cc *ast.Cas
 				}
 			}
 		case *ast.CallExpr:
+			if id, ok := n.Fun.(*ast.Ident); ok && id.Name == "append" && bits == 32 {
+				if _, isBuiltin := info.Uses[id].(*types.Builtin); isBuiltin {
+					nAppend++
+					asciiOnly := false
+					for _, g := range asciiGuarded {
+						if g[0] <= n.Pos() && n.End() <= g[1] {
+							asciiOnly = true
+						}
+					}
+					if asciiOnly {
+						// below utf8.RuneSelf the encoding is the byte itself
+					} else if !n.Ellipsis.IsValid() {
+						rawByteAppend = true
+					} else if len(n.Args) == 2 {
+						if sl, ok := n.Args[1].(*ast.SliceExpr); !ok || sl.Low != nil {
+							rawByteAppend = true
+						}
+					}
+				}
+			}
+			if sel, ok := n.Fun.(*ast.SelectorExpr); ok && sel.Sel.Name == "EncodeRune" || ok && sel.Sel.Name == "AppendRune" {
+				encodes = true
+			}
 			if sel, ok := n.Fun.(*ast.SelectorExpr); ok && sel.Sel.Name == "ParseUint" && len(n.Args) == 3 {
 				b, _ := constI(info, n.Args[1])
 				s, _ := constI(info, n.Args[2])
@@ -476,6 +512,16 @@ func checkNumericEscape(w *World, r *Report, rule, construct string, cc *ast.Cas
 		return true
 	})
 	var problems []string
+	if bits == 32 {
+		switch {
+		case !encodes:
+			problems = append(problems, "the code point is not UTF-8 encoded (no utf8.EncodeRune / AppendRune in the arm)")
+		case rawByteAppend:
+			problems = append(problems, "some path appends the code point as a single byte instead of the bytes utf8.EncodeRune produced: \\u0080..\\u00ff decode to invalid UTF-8, while the quoting functions emit exactly these escapes for the non-printable characters of that range")
+		case nAppend == 0:
+			problems = append(problems, "nothing is appended in the arm")
+		}
+	}
 	// digit loop
 	okLoop := false
 	for _, b := range loopBounds {
